@@ -44,6 +44,13 @@ class Register:
             raise JaqalError(
                 f"Illegal size specification in map statement defining {name}."
             )
+        if isinstance(size, AnnotatedValue):
+            if size.kind not in (ParamType.INT, ParamType.NONE):
+                raise JaqalError(
+                    f"Register {name} sized by {size.name} of non-integer kind {size.kind}."
+                )
+        elif size is not None and not isinstance(size, int):
+            raise JaqalError(f"Invalid register size {size} for {name}.")
         self._alias_from = alias_from
         self._alias_slice = alias_slice
         if alias_slice is not None:
